@@ -55,9 +55,13 @@ class Universe:
 
     def some_cid(self):
         r = self.rng.random()
-        if r < 0.7:
+        if r < 0.6:
             return self.cid_of(self.tok())
-        if r < 0.85:
+        if r < 0.72:
+            # another spelling of an address that may exist: addresses are opaque, case included
+            c = self.cid_of(self.tok())
+            return c.upper() if r < 0.68 else c[:-1] + c[-1].upper() + ""
+        if r < 0.86:
             return self.never_cid
         return self.junk_cid
 
@@ -91,7 +95,7 @@ class Universe:
             d = self.contents.digest(tok, a)
             r = rng.random()
             if r < p_wrong:
-                d = ("0" if d[0] != "0" else "1") + d[1:]
+                d = self.wrong_digest(d)
             elif r < p_wrong + 0.25:
                 d = d.upper()
             checksum, csalg = d, sp
@@ -99,6 +103,15 @@ class Universe:
             n = len(self.contents.by_tok[tok])
             size = n if rng.random() > p_wrong else n + rng.choice([1, -1, 7])
         return checksum, csalg, size
+
+    def wrong_digest(self, d):
+        """a checksum that does not match d: same alphabet, or a caller's typo outside ASCII"""
+        r = self.rng.random()
+        if r < 0.7:
+            return ("0" if d[0] != "0" else "1") + d[1:]
+        if r < 0.85:
+            return "\uff10" + d[1:]          # FULLWIDTH DIGIT ZERO
+        return d[:-1] + "\u00e9"
 
     def om_of(self, tok, extra=()):
         digests = {a: self.contents.digest(tok, a) for a in DEFAULTS + list(extra)}
@@ -131,12 +144,15 @@ class Universe:
             d = self.contents.digest(tok, a)
             r = rng.random()
             if r < 0.3:
-                d = ("0" if d[0] != "0" else "1") + d[1:]
+                d = self.wrong_digest(d)
             elif r < 0.55:
                 d = d.upper()
             n = len(self.contents.by_tok[tok])
             size = rng.choice([n, n, n, n + 1, None]) if n > 0 else rng.choice([None, 1])
-            return delete_if_invalid_object(self.om_of(tok, extra), d, sp, size)
+            om = self.om_of(tok, extra)
+            if rng.random() < 0.12:
+                om = (om[0], om[1].upper(), om[2], om[3])
+            return delete_if_invalid_object(om, d, sp, size)
         if k == "delete":
             return delete_object(self.pid())
         if k == "retrieve":
@@ -181,11 +197,31 @@ class Universe:
                 return tag_object(self.bad_sarg(), self.some_cid())
             return tag_object(self.pid(), self.bad_sarg())
         if k == "div":
-            om = rng.choice([None, ("bad",), self.om_of(tok)])
-            cs = rng.choice([self.bad_sarg(), "abc"])
-            ca = rng.choice([self.bad_sarg(), "sha256", rng.choice(BAD_ALGOS)])
-            size = rng.choice([None, 3, 0, -2, OTHER])
-            return delete_if_invalid_object(om, cs, ca, size)
+            which = rng.choice(["om", "cs", "ca", "ca", "size", "several"])
+            if which == "several":
+                om = rng.choice([None, ("bad",), self.om_of(tok)])
+                cs = rng.choice([self.bad_sarg(), "abc"])
+                ca = rng.choice([self.bad_sarg(), "sha256", rng.choice(BAD_ALGOS)])
+                size = rng.choice([None, 3, 0, -2, OTHER])
+                return delete_if_invalid_object(om, cs, ca, size)
+            # exactly one invalid parameter; the others as a caller with a real (possibly
+            # invalid) object would pass them, so that a late argument check has something to destroy
+            n = len(self.contents.by_tok[tok])
+            a, sp = self.alg_spelling()
+            cs = self.contents.digest(tok, a)
+            if rng.random() < 0.4:
+                cs = ("0" if cs[0] != "0" else "1") + cs[1:]
+            size = rng.choice([n, n + 1, n + 7, None])
+            om = self.om_of(tok)
+            if which == "om":
+                om = rng.choice([None, ("bad",)])
+            elif which == "cs":
+                cs = self.bad_sarg()
+            elif which == "ca":
+                sp = rng.choice([self.bad_sarg()] + BAD_ALGOS)
+            else:
+                size = rng.choice([0, -2, OTHER])
+            return delete_if_invalid_object(om, cs, sp, size)
         if k == "smeta":
             r = rng.random()
             if r < 0.4:
